@@ -258,7 +258,11 @@ pub(crate) fn generate_entrypoint_artifacts_with_client_scalar_selectable_traver
 
     let mut path_and_contents = Vec::with_capacity(refetch_paths_with_variables.len() + 3);
     path_and_contents.push(ArtifactPathAndContent {
-        file_content: format!("export default '{query_text}';").into(),
+        file_content: format!(
+                "export default '{}';",
+                crate::operation_text::escape_for_single_quoted_js_string(&query_text.to_string())
+            )
+            .into(),
         artifact_path: ArtifactPath {
             file_name: *QUERY_TEXT_FILE_NAME,
             type_and_field: EntityNameAndSelectableName {
